@@ -383,7 +383,7 @@ func writeManifest() {
 			Technique: "static analysis: " + props.Technique[p.ID],
 		})
 	}
-	var nas []na
+	nas := []na{}
 	var ids []string
 	for id := range props.NotApplicable {
 		ids = append(ids, id)
